@@ -101,6 +101,19 @@ func (p *FunctionBuilder) CreateFunction(m *bmodel.MethodEntry) (*gmodel.Functio
 		srcVar.Name = m.Opts.Receiver
 	}
 
+	// The generated function declares its operands, and err when it returns
+	// an error, in one scope: their names must differ.
+	declared := map[string]bool{}
+	if m.RetError() {
+		declared["err"] = true
+	}
+	for _, v := range append([]gmodel.Var{srcVar, dstVar}, additionalArgsVars...) {
+		if declared[v.Name] {
+			return nil, logger.Errorf("%v: the name %v is used for more than one variable of the generated function", p.fset.Position(m.Method.Pos()), v.Name)
+		}
+		declared[v.Name] = true
+	}
+
 	var assignments []gmodel.Assignment
 	var err error
 	if m.Opts.Reverse {
